@@ -72,6 +72,11 @@ theorem bitAt_ext_word {W : Nat} (hW : 0 < W) (a : Array Nat) (g : Nat → Bool)
   have hr : k % W < W := Nat.mod_lt _ hW
   rw [bitAt_rd, h _ _ hr, ← hk]
 
+theorem succ_mul_le {q d : Nat} (W : Nat) (h : q < d) : q * W + W ≤ d * W := by
+  have := Nat.mul_le_mul_right W (show q + 1 ≤ d from h)
+  rw [Nat.add_mul, Nat.one_mul] at this
+  exact this
+
 /-! ## masks -/
 
 theorem testBit_maskR {W r : Nat} (hr : r ≤ W) (j : Nat) :
